@@ -25,8 +25,7 @@ META = dict(
                       "on/off; scalars k in [-2^8, 2^10]; _naf for k in [0, 2^12); mul_add with "
                       "a, b in [-16, 2^8], Q = t*P for t in {1, q-1, 2} and Q = infinity; glue: "
                       "p = 5, k in {-2..3, ord-1, ord, ord+1, 2*ord+3}, six mul_add pairs",
-                thorough="q also 7, 251; declared order 3q; k in [-2^12, 2^14]; a, b to 2^10; _naf to "
-                         "2^16; glue also p = 7, k in [-3, 2*ord+3]"),
+                thorough="q also 7, 251; _naf to 2^16; glue also p = 7, k in [-3, 2*ord+3], all 12 mul_add pairs"),
     stubs=["_add / _double on abstract triples: T(i) + T(j) = T(i+j), 2 T(i) = T(2i); x(), y(), "
            "scale() keep the exponent; a coordinate is zero exactly when the triple denotes the "
            "identity (prime order q: no 2-torsion)",
@@ -416,10 +415,10 @@ def jobs(tier, seed):
     big = nat.curves.SECP112r1.order
     js.append(Job("naf/B12", "harness.c07:naf_job", B=12 if tier == "quick" else 16))
     qs = [5, 13, big] if tier == "quick" else [5, 7, 13, 251, big]
-    lo, hi = (-(2 ** 8), 2 ** 10) if tier == "quick" else (-(2 ** 12), 2 ** 14)
+    lo, hi = (-(2 ** 8), 2 ** 10)
     for q in qs:
         qn = "q%d" % q if q < 10 ** 6 else "q%dbit" % q.bit_length()
-        for om in ((0, 1) if tier == "quick" else (0, 1, 3)):
+        for om in (0, 1):
             if om and q > 10 ** 6:
                 # a declared 112-bit order makes the recoding ~115 symbolic digits deep: the
                 # queries do not finish; the table itself is still checked (table_job)
@@ -442,7 +441,7 @@ def jobs(tier, seed):
                         continue
                     js.append(Job("muladd/%s/o%d/t%d/g%d%d" % (qn, om, t if t < 10 ** 6 else -1, gs, go),
                                   "harness.c07:mul_add_job", q=q, order_mult=om, t=t, lo=-16,
-                                  hi=2 ** 8 if tier == "quick" else 2 ** 10, gen_self=gs, gen_other=go))
+                                  hi=2 ** 8, gen_self=gs, gen_other=go))
     from harness.c06 import _fixed_curves
     for p in ((5,) if tier == "quick" else (5, 7)):
         ab = {5: (2, 1), 7: (0, 3)}[p]       # prime group order (7 resp. 13): no 2-torsion
